@@ -487,7 +487,7 @@ func mixCase(c *ev.Case) {
 	for i := range rgs {
 		switch rng.Intn(4) {
 		case 0:
-			rgs[i] = rg{uint32(rng.Intn(65536 - 16)), uint32(rng.Range(1, 16))}
+			rgs[i] = rg{uint32(rng.Pick(rng.Intn(65536-16), rng.Intn(65536-16), 65520, 0)), uint32(rng.Range(1, 16))} // 65520+16 reaches the last value of the bucket
 		case 1:
 			rgs[i] = rg{uint32(rng.Pick(0, 60, 4000, 65000)), uint32(rng.Range(30, 500))}
 		case 2:
